@@ -118,10 +118,11 @@ void Apbp::SetSemaphore(u16 bits) {
     std::lock_guard lock(impl->semaphore_mutex);
     impl->semaphore |= bits;
     bool new_signal = (impl->semaphore & ~impl->semaphore_mask) != 0;
+    // store the flag before calling out: the handler may re-enter and acknowledge the semaphore
+    impl->semaphore_master_signal = impl->semaphore_master_signal || new_signal;
     if (new_signal && impl->semaphore_handler) {
         impl->semaphore_handler();
     }
-    impl->semaphore_master_signal = impl->semaphore_master_signal || new_signal;
 }
 
 void Apbp::ClearSemaphore(u16 bits) {
@@ -139,10 +140,12 @@ void Apbp::MaskSemaphore(u16 bits) {
     std::lock_guard lock(impl->semaphore_mutex);
     impl->semaphore_mask = bits;
     bool new_signal = (impl->semaphore & ~impl->semaphore_mask) != 0;
-    if (new_signal && !impl->semaphore_master_signal && impl->semaphore_handler) {
+    bool rise = new_signal && !impl->semaphore_master_signal;
+    // store the flag before calling out: the handler may re-enter and acknowledge the semaphore
+    impl->semaphore_master_signal = new_signal;
+    if (rise && impl->semaphore_handler) {
         impl->semaphore_handler();
     }
-    impl->semaphore_master_signal = new_signal;
 }
 
 u16 Apbp::GetSemaphoreMask() const {
